@@ -187,7 +187,7 @@ pub fn config(menu: ConfigMenu) -> BoxedStrategy<Config> {
             };
             let n = (model.bits() as u16 + 7) / 8;
             let tstrat: BoxedStrategy<Transport> = match t {
-                Transport::Spi { .. } => spi_buf(n).prop_map(|buf| Transport::Spi { buf }).boxed(),
+                Transport::Spi { .. } => spi_buf(n).prop_map(|buf| Transport::Spi { buf: buf as u32 }).boxed(),
                 x => Just(x).boxed(),
             };
             (
